@@ -157,6 +157,29 @@ def processRulesAfter (sort : List Rule → List Rule) (p : Proc) (history : Lis
     (rules : List Rule) : List Rule × List Rule :=
   processRules sort (p.run history).flag rules
 
+/-- Validator used where the order among equal priorities is free (the correspondence then
+    *checks* an observed run instead of predicting it): `exec` = names of the started rules in
+    order, `errs` = names in the error report, for the triggered `rules` (name = position).
+    Accepts iff the run is `processRules` for *some* admissible sort: no rule twice, priorities
+    never decrease, no rule left out has a smaller priority than a started one; without the flag
+    nothing is left out; with it no started rule but the last fails and the sequence goes on to
+    the end unless the last one fails; the report holds exactly the failing started rules. -/
+def validRun (flag : Bool) (rules : List Rule) (exec errs : List Nat) : Bool :=
+  let execR := exec.filterMap fun i => rules[i]?
+  let rest := rules.filter fun r => !exec.contains r.name
+  exec.all (· < rules.length) && exec.eraseDups.length == exec.length &&
+  (execR.zip execR.tail).all (fun p => decide (p.1.prio ≤ p.2.prio)) &&
+  rest.all (fun x => execR.all fun e => decide (e.prio ≤ x.prio)) &&
+  (if flag then
+     execR.dropLast.all (fun r => !r.fails) &&
+     (match execR.getLast? with
+      | some l => if l.fails then true else rest.isEmpty
+      | none => rest.isEmpty)
+   else rest.isEmpty) &&
+  errs.eraseDups.length == errs.length &&
+  errs.all (fun i => (execR.any fun r => r.name == i && r.fails)) &&
+  (execR.filter (·.fails)).all (fun r => errs.contains r.name)
+
 /-- specification function: the prefix up to and including the first failing rule -/
 def uptoFirstFail : List Rule → List Rule
   | [] => []
@@ -218,6 +241,12 @@ def HPQ.pop (q : HPQ) : Option (Item × HPQ) :=
   | none => none
   | some (x, h) => some (x, { q with heap := h })
 
+/-- `PriorityQueue.Peek` (default `MinPriority`): the root of the heap -/
+def HPQ.peek (q : HPQ) : Option Item := q.heap.head?
+
+/-- `PriorityQueue.Clear`: fresh slice, `orderCounter = 0` -/
+def HPQ.clear (_ : HPQ) : HPQ := {}
+
 /-- `TaskQueue.queues`: root monitor id ↦ queue -/
 abbrev TQ := List (Nat × PQ)
 
@@ -253,6 +282,19 @@ def checkTrace : TQ → Nat → List QEv → Option Nat
   | t, k, .pop root mon :: rest =>
     match t.pop root with
     | some (m, t') => if m.val == mon then checkTrace t' (k + 1) rest else some k
+    | none => some k
+
+/-- the same replay on the real representation (`HPQ`: container/heap on the slice) -/
+def checkTraceH : List (Nat × HPQ) → Nat → List QEv → Option Nat
+  | _, _, [] => none
+  | t, k, .push root prio mon :: rest =>
+    let q := ((t.find? (·.1 == root)).map (·.2)).getD {}
+    checkTraceH ((root, q.push mon prio) :: t.filter (·.1 != root)) (k + 1) rest
+  | t, k, .pop root mon :: rest =>
+    let q := ((t.find? (·.1 == root)).map (·.2)).getD {}
+    match q.pop with
+    | some (m, q') =>
+      if m.val == mon then checkTraceH ((root, q') :: t.filter (·.1 != root)) (k + 1) rest else some k
     | none => some k
 
 /-! ## (c) root-monitor bookkeeping — engine/monitor.go -/
@@ -378,27 +420,34 @@ def trueHighest? (s : RM) : Option Int := ((s.mons.filter Mon.active).map Mon.pr
 
 end Book
 
-/-! ## one worker running the cascade of one root monitor (correspondence only) -/
+/-! ## one worker running the cascade of one root monitor: `ProcessEvent` composed with the queue -/
 namespace Cascade
 open Book
 
-/-- a scripted event: `parent` = index of the event whose action adds it (`none`: added from
-    outside before the worker starts), the priority of its child monitor (`none`: the event is
-    added with the root monitor itself), whether a rule triggers on it, whether that rule fails -/
+/-- a scripted event: `parent = some (e, k)`: it is added by the action of rule number `k` of event
+    `e` (`none`: added from outside before the worker starts); the priority of its child monitor
+    (`none`: the event is added with the root monitor itself); the rules it triggers as
+    (priority, fails) in declaration order (`[]`: no rule triggers, the event is skipped) -/
 structure Node where
-  parent : Option Nat
+  parent : Option (Nat × Nat)
   prio   : Option Int
-  trig   : Bool
-  fails  : Bool
+  rules  : List (Int × Bool)
   deriving Repr, Inhabited
+
+def Node.trig (n : Node) : Bool := !n.rules.isEmpty
+
+/-- the rules triggered by event `idx`; the name of a rule is its position in the declaration -/
+def rulesOf (nodes : List Node) (idx : Nat) : List Rule :=
+  ((nodes[idx]?.map (·.rules)).getD []).zipIdx.map fun p => { name := p.2, prio := p.1.1, fails := p.1.2 }
 
 structure St where
   rm      : RM := {}
   q       : PQ := {}
-  monOf   : List (Nat × Nat) := []      -- node ↦ monitor index
-  started : List (Nat × Int) := []      -- (node, HighestPriority() at the start of its action), reversed
-  errs    : List Nat := []
-  bad     : Bool := false               -- the model hit an assertion (never for generated scripts)
+  monOf   : List (Nat × Nat) := []             -- event ↦ monitor index
+  popped  : List Nat := []                     -- events taken by the worker, reversed
+  started : List ((Nat × Nat) × Int) := []     -- ((event, rule), HighestPriority() at the start of the action), reversed
+  errs    : List (Nat × Nat) := []             -- (event, rule) in the error report
+  bad     : Bool := false                      -- the model hit an assertion (never for generated scripts)
 
 /-- `proc.AddEvent(ev, parent.NewChildMonitor(prio))` resp. `proc.AddEvent(ev, root)`: a triggering
     event activates its monitor and is queued with the monitor's priority, another one is skipped.
@@ -426,27 +475,33 @@ def kidsOf (nodes : List Node) (sel : Node → Bool) : List (Node × Nat) :=
 def addAll (cfg : Cfg) (nodes : List Node) (sel : Node → Bool) (s : St) : St :=
   (kidsOf nodes sel).foldl (fun s p => addEvent cfg s p.2 p.1) s
 
-/-- the worker loop: pop, run the action (sample `HighestPriority`, add the children — also when
-    the rule then fails), finish; a failing rule puts the event into the error report -/
-def loop (cfg : Cfg) (nodes : List Node) : Nat → St → St
+/-- the action of rule `r` of event `idx` is started: sample `HighestPriority`, add the events
+    this rule adds (a failing rule adds them before it returns its error) -/
+def runRule (cfg : Cfg) (nodes : List Node) (idx : Nat) (s : St) (r : Rule) : St :=
+  addAll cfg nodes (fun n => n.parent == some (idx, r.name))
+    { s with started := ((idx, r.name), highestPriority s.rm) :: s.started }
+
+/-- the worker loop: pop an event; `ProcessEvent` = `processRules` (sort, run in order, stop after
+    the first error when the flag is set) — only the started rules add their events; finish the
+    monitor; the error map goes into the error report -/
+def loop (cfg : Cfg) (sort : List Rule → List Rule) (flag : Bool) (nodes : List Node) : Nat → St → St
   | 0, s => s
   | fuel + 1, s =>
     match s.q.pop with
     | none => s
     | some (it, q') =>
       let idx := it.val
-      let s1 := { s with q := q', started := (idx, highestPriority s.rm) :: s.started }
-      let s2 := addAll cfg nodes (fun n => n.parent == some idx) s1
-      let fails := (nodes[idx]?.map (·.fails)).getD false
+      let res := processRules sort flag (rulesOf nodes idx)
+      let s2 := res.1.foldl (runRule cfg nodes idx) { s with q := q', popped := idx :: s.popped }
       let k := ((s2.monOf.find? (·.1 == idx)).map (·.2)).getD 0
       let (rm3, ok) := match step cfg s2.rm (.finish k) with
         | some r => (r, true)
         | none => (s2.rm, false)
-      loop cfg nodes fuel { s2 with rm := rm3, errs := if fails then idx :: s2.errs else s2.errs,
-                                    bad := s2.bad || !ok }
+      loop cfg sort flag nodes fuel
+        { s2 with rm := rm3, errs := res.2.map (fun r => (idx, r.name)) ++ s2.errs, bad := s2.bad || !ok }
 
-def runScript (cfg : Cfg) (nodes : List Node) : St :=
-  loop cfg nodes (nodes.length + 1) (addAll cfg nodes (fun n => n.parent.isNone) {})
+def runScript (cfg : Cfg) (sort : List Rule → List Rule) (flag : Bool) (nodes : List Node) : St :=
+  loop cfg sort flag nodes (nodes.length + 1) (addAll cfg nodes (fun n => n.parent.isNone) {})
 
 end Cascade
 end Ecal.Priority
